@@ -50,7 +50,9 @@ manifest = {
     }],
     'checks': checks,
     'notes': ("Every check is static: it parses /repo/pytrs on each run and decides rule instances on the source. "
-              "Exit 2 + 'ANALYSIS-ERROR' means an anchor vanished or a shape is not understood (never a silent pass). "
+              "Verdicts are tri-state per rule instance: ok / violation (semantic fact or recognised-bad shape: exit 1 with a VIOLATION line) / "
+              "undecided (construct present but shape not recognised: exit 0, counted and listed in the evidence). "
+              "Exit 2 + 'ANALYSIS-ERROR' only when a primary anchor (a function / class / regex / file the property itself names) vanished or on an internal error. "
               "Known findings: /verif/known_findings.json. Each check decides the named structural clauses of its property "
               "(necessary conditions), not the behaviour as a whole; the declined clauses are listed per property in DESIGN.md section 5/6."),
     'not_applicable': na,
